@@ -316,7 +316,8 @@ def run_property(prop, tier, verif_seed, budget_s=None, n_runs=None, workers=Non
                 # does it recur at all? (see write_replay: intermittent = nondeterministic system under test)
                 intermittent = True
                 try:
-                    small, v2, dig, used = minimise(mod, r["case"], cls, shrink_exec(), tries=4)
+                    small, v2, dig, used = minimise(mod, r["case"], cls, shrink_exec(),
+                                                    tries=2 if getattr(mod, "USES_SERVERS", False) else 4)
                 except kernel.HarnessError:
                     # too rare to minimise: keep the case as it was observed (the replay tries it many times)
                     small, v2, dig, used = r["case"], v, r["digest"], 0
